@@ -3,7 +3,8 @@ from core import run_cases
 
 MODULES = ["Props.C05", "Props.C05Tie"]
 THEOREMS = ["Props.C05.c05_policy", "Props.C05.c05_override", "Props.C05.c05_validation_tokens",
-            "Props.C05Tie.policy_words"]
+            "Props.C05Tie.policy_words",
+            "Props.C05Tie.handle_if_source_is_model", "Props.C05Tie.c05_policy_source"]
 
 
 def run(check, tier):
